@@ -20,7 +20,7 @@ void make_integral(stc::History& h) {
 }
 
 // With store_filtration = false every simplex has value 0: the range must still be a permutation of the complex, faces first,
-// and the documented tie order makes it the reverse lexicographic order.
+// and a function of the complex alone (the documented reverse lexicographic tie order is counted, not required).
 template <class ST>
 bool check_range_without_values(vh::Case& c, const ST& st, const ComplexModel& M, const std::string& sig) {
   ComplexModel Z; for (auto& kv : M.cx) Z.cx[kv.first] = 0;
@@ -30,7 +30,16 @@ bool check_range_without_values(vh::Case& c, const ST& st, const ComplexModel& M
   if (n != M.cx.size()) { c.violation("hist.filtration_range.size", sig + (n > M.cx.size() ? ",too_many" : ",too_few"), "filtration_simplex_range lists " + vh::str(n) + " simplices, complex has " + vh::str(M.cx.size())); return false; }
   std::vector<Simplex> seq = sequence(st);
   if (!check_sequence(c, seq, Z, false, sig)) return false;
-  if (seq != documented_order(Z.cx)) { c.violation("order.documented_tie_order", sig, "not the reverse lexicographic order although all values are equal"); return false; }
+  // The property does not fix the tie-break (the documentation happens to say reverse lexicographic): it is only counted.  What
+  // is required is that the sequence is a function of the filtered complex alone: a tree of the same options rebuilt from the
+  // model by another history has to list the same sequence.
+  if (seq == documented_order(Z.cx)) c.count("info.order_is_reverse_lexicographic");
+  {
+    ST fresh;
+    for (auto it = M.cx.rbegin(); it != M.cx.rend(); ++it) fresh.insert_simplex_and_subfaces(stc::to_vh<ST>(it->first), 0);
+    if (sequence(fresh) != seq) { c.violation("order.not_deterministic", sig + ",rebuilt_from_model", "a tree rebuilt from the same complex by another history lists another sequence"); return false; }
+    c.count("cmp.order_same_after_rebuild");
+  }
   return true;
 }
 
